@@ -438,7 +438,7 @@ def _run(item):
                     real["first_attempt"] = type(exc0).__name__
                 finally:
                     _settings.set_is_using_hardware(False)
-                if real["first_attempt"] != "accepted":
+                if real["first_attempt"] != "accepted":          # ("ValueError" is hardware mode's refusal of the final rotation)
                     tsub = None
                     if c["retry"] == "fresh":
                         tr = NVSubroutineTranspiler(sub_obj, debug=c["debug"])
@@ -497,7 +497,8 @@ def build_cases(tier: str, rng: random.Random) -> List[Dict[str, Any]]:
     # recovery after a rejected transpile(): the program gets a final rotation by 3 pi / 32, which hardware mode refuses
     base = list(cases)
     k = 0
-    for c0 in base[: (260 if tier == "quick" else 1500)]:
+    nd = 2 * len(directed())
+    for c0 in base[:nd:5] + base[nd: nd + (220 if tier == "quick" else 1500)]:
         a0 = c0["ast"]
         if a0.get("split") or a0.get("regstyle") == "free":
             continue
@@ -668,7 +669,9 @@ def run(prop: str, tier: str) -> int:
             if rid > ndir:
                 continue
             c0, r = cases[rid - 1], rows[rid - 1]
-            w = dict(skeleton(c0["ast"]), debug=c0["debug"], **({"after_rejected_transpile": c0["retry"]} if c0.get("retry") else {}))
+            # (the recovery tag only if a first transpile() really was rejected; otherwise the case is the plain program)
+            w = dict(skeleton(c0["ast"]), debug=c0["debug"],
+                     **({"after_rejected_transpile": c0["retry"]} if c0.get("retry") and r["real"].get("first_attempt") == "ValueError" else {}))
             V.add(v[1], w, f"debug={c0['debug']}: source program {json.dumps(c0['ast'])}: {v[1]}; transpiled run: {r['real']['status']} {r['real']['err']}",
                   {"ast": c0["ast"], "debug": c0["debug"], "meas": c0["meas"], "retry": c0.get("retry"), "nv": r["real"].get("nvtext", [])})
         # any generated program that fails is shrunk (statement deletion, unwrapping, fewer iterations) and reported by its skeleton
@@ -682,12 +685,13 @@ def run(prop: str, tier: str) -> int:
                 break
             budget -= 1
             small = shrink(c0, clause, tmp)
-            w = dict(skeleton(small["ast"]), debug=small["debug"], **({"after_rejected_transpile": small["retry"]} if small.get("retry") else {}))
+            r = _run((0, small))
+            w = dict(skeleton(small["ast"]), debug=small["debug"],
+                     **({"after_rejected_transpile": small["retry"]} if small.get("retry") and r["real"].get("first_attempt") == "ValueError" else {}))
             key = (clause, json.dumps(w, sort_keys=True))
             if key in seen:
                 continue
             seen.add(key)
-            r = _run((0, small))
             V.add(clause, w, f"debug={small['debug']}: source program {json.dumps(small['ast'])}: {clause}; transpiled run: {r['real']['status']} {r['real']['err']} "
                   f"({len(rnd)} generated programs fail in this run)", {"ast": small["ast"], "debug": small["debug"], "meas": small["meas"], "retry": small.get("retry"), "nv": r["real"].get("nvtext", [])})
         # state kept between transpilations (caches, class-level bookkeeping)
